@@ -336,7 +336,8 @@ def history_sig(op):
     if op.get("op") == "ompbuild":
         return "ompbuild:%s" % op["kernel"]
     if op.get("op") == "vario_dirs":
-        return "vario_dirs:%d:%d:%s" % (op["dim"], len(op["angles_deg"]), op["tol_deg"])
+        return "vario_dirs:%d:%d:%s:%s%s" % (op["dim"], len(op["angles_deg"]), op["tol_deg"],
+                                            op.get("masked", ""), "L" if op.get("latlon") else "")
     if op.get("op") == "wrapper":
         s = op["size"]
         return "wrapper:%s:%d:%d:%d:%s" % (op["kernel"], s["dim"], min(s["n"], 50) // 5,
@@ -399,6 +400,17 @@ class Machine:
             size["m"] = min(size["m"], 30 if KERNELS[kernel] == "estimator" else 200)
             return {"op": "ompbuild", "kernel": kernel, "size": size,
                     "vseed": rng.randint(0, 2 ** 31), "reps": rng.choice([2, 5, 10])}
+        if r > 0.985:
+            if rng.random() < 0.5:
+                return {"op": "vario_dirs", "masked": "stacked", "dim": rng.choice([1, 2, 3]),
+                        "n": rng.randint(4, 20), "fields": rng.choice([2, 3]),
+                        "bins": rng.randint(1, 4), "vseed": rng.randint(0, 2 ** 31),
+                        "angles_deg": [], "tol_deg": 0,
+                        "est": rng.choice(["matheron", "cressie"])}
+            return {"op": "vario_dirs", "masked": "axis", "dim": 2, "n": rng.randint(3, 9),
+                    "m": rng.randint(1, 5), "no_data": rng.choice([None, -9999.0]),
+                    "vseed": rng.randint(0, 2 ** 31), "angles_deg": [], "tol_deg": 0,
+                    "est": rng.choice(["matheron", "cressie"])}
         if r > 0.97:
             return {"op": "vario_dirs", "latlon": True, "dim": 2, "n": rng.randint(4, 20),
                     "bins": rng.randint(1, 4), "vseed": rng.randint(0, 2 ** 31),
@@ -589,10 +601,64 @@ class Machine:
                 raise Violation("C15.defining_sums.vario_estimate_latlon", call=rep + 1,
                                 counts=np.asarray(res[2]).tolist(), want=ref[1].tolist())
 
+    def _vario_masked(self, op):
+        """Public estimators with masked input == defining sums with the masked values treated
+        as missing: stacked fields with different masks (vario_estimate) and masked arrays that
+        also contain NaN / no_data values (vario_estimate_axis)."""
+        import gstools as gs
+        rs = random.Random(op["vseed"])
+        est = op["est"]
+        if op["masked"] == "stacked":
+            dim, n, k = op["dim"], op["n"], op["fields"]
+            pos = _vals(rs, (dim, n), -3, 3)
+            data = _vals(rs, (k, n))
+            masks = np.array([[rs.random() < 0.3 for _ in range(n)] for _ in range(k)])
+            masks[:, 0] = False
+            edges = np.linspace(0.0, 7.0, op["bins"] + 1)
+            fields = [np.ma.array(data[i], mask=masks[i]) for i in range(k)]
+            res = gs.vario_estimate(pos, fields, bin_edges=edges, return_counts=True,
+                                    estimator=est)
+            f = np.where(masks, np.nan, data)
+            ref = defining("unstructured", [f, edges, pos],
+                           {"estimator_type": est[0], "distance_type": "e"})
+            got_v, got_c = np.asarray(res[1]), np.asarray(res[2])
+            name = "vario_estimate_stacked_masks"
+        else:
+            shape = (op["n"], op["m"])
+            data = _vals(rs, shape)
+            mask = np.array([[rs.random() < 0.25 for _ in range(shape[1])]
+                             for _ in range(shape[0])])
+            miss = np.array([[rs.random() < 0.2 for _ in range(shape[1])]
+                             for _ in range(shape[0])]) & ~mask
+            marker = op.get("no_data")
+            kw = {}
+            if marker is None:
+                data[miss] = np.nan
+            else:
+                data[miss] = marker
+                kw["no_data"] = marker
+            field = np.ma.array(data, mask=mask)
+            res = gs.vario_estimate_axis(field, direction="x", estimator=est, **kw)
+            comb = (mask | miss).astype(np.uint8)
+            clean = np.where(mask | miss, 0.0, data)
+            ref = defining("ma_structured", [clean, comb], {"estimator_type": est[0]})
+            got_v, got_c = np.asarray(res), None
+            ref = (ref[0], None)
+            name = "vario_estimate_axis_masked_missing"
+        self.ctx.observations += 1
+        self.ctx.probe("wrapper." + name)
+        bad = not close(got_v, ref[0], rtol=1e-10)
+        if got_c is not None and not np.array_equal(got_c, ref[1]):
+            bad = True
+        if bad:
+            raise Violation("C15.defining_sums." + name, maxdiff=maxdiff(got_v, ref[0]))
+
     def _vario_dirs(self, op):
         import gstools as gs
         if op.get("latlon"):
             return self._vario_latlon(op)
+        if op.get("masked"):
+            return self._vario_masked(op)
         rs = random.Random(op["vseed"])
         dim = op["dim"]
         n = op["n"]
